@@ -47,7 +47,8 @@ PROPS["C17"] = dict(
 
 PROPS["C01"] = dict(
     level="proof",
-    modules=["contracts.c_number_theory", "contracts.c_curve"],
+    modules=["contracts.c_number_theory", "contracts.c_curve", "contracts.c_group_law"],
+    extra=["pyvc.extras.lean_preamble"],
     not_decided=[],
     assumptions=["p and n prime where a contract says so (the constructor's Fermat base-2 test is weaker)"],
     bounded=[],
